@@ -1,8 +1,9 @@
 (* C16 — fix_counts completes and bit-reverses any outcome table.
    Property theorems only; proofs live in Proofs/FixCountsProofs.v; the model in Model/FixCounts.v is tied to
    simulations_utility.fix_counts by the exhaustive correspondence run of checks/c16.py. *)
-From Coq Require Import List Bool NArith.
+From Coq Require Import List Bool NArith ZArith Reals Lra.
 Require Import QG.Base.Res QG.Model.FixCounts QG.Proofs.FixCountsKeys QG.Proofs.FixCountsProofs.
+Require Import QG.Model.SimRun QG.Proofs.SimRunKeys QG.Proofs.SimRunProofs QG.Proofs.FixCountsSim.
 Import ListNotations.
 
 (* For every n >= 1, every non-empty table with distinct n-bit keys and every value type:
@@ -34,6 +35,29 @@ Theorem C16_all_keys_meaning :
 Proof. intros n. split. apply all_keys_val. intros k. split. apply in_all_keys. apply all_keys_len. Qed.
 Print Assumptions C16_all_keys_meaning.
 
+(* Third clause.  A simulator result (C14's model of run(): validation, shot average `perform`, normalisation, _measurament)
+   whose measurements used the classical bits in ascending order, passed through fix_counts with n = number of measured
+   qubits, is Qiskit's little-endian table: all 2^m keys ascending, and the value under key k is the marginal probability
+   that, for every classical bit c, the qubit measured into c shows character m-1-c of k (Qiskit prints classical bit m-1
+   first).  msum dist n pos t = sum over the basis indices i whose characters at the measured qubits' ranks `pos` spell t
+   (C14_marginal_correct, C14_key_characters); the simulator's key for Qiskit's key k is rev k.  The simulator orders key
+   characters by the order of the measure instructions (it never reads the classical-bit index), so "ascending
+   classical-bit order" is exactly the hypothesis Hasc under which that order is the classical-bit order. *)
+Theorem C16_simulator_result_little_endian :
+  forall (a : args) (f : front_out) (perform : front_out -> res (list R)) (probs : list R),
+  front a = Ok f -> data_wf a -> NoDup (map fst (f_meas f)) ->
+  perform f = Ok probs -> length probs = Nat.pow 2 (f_n f) -> Forall (Rle 0%R) probs -> (0 < rsum probs)%R ->
+  let m := length (f_meas f) in
+  map snd (f_meas f) = map N.of_nat (seq 0 m) ->                                      (* Hasc *)
+  exists out out2, run_model R 0%R Rplus Rdiv rpos a perform = Ok out /\
+    fix_counts R 0%R out m = Ok out2 /\ map fst out2 = all_keys m /\
+    forall k, length k = m ->
+      lookup R k out2 = Some (msum (map (fun x => (x / rsum probs)%R) probs) (f_n f) (positions_of (f_meas f) (f_used f)) (rev k)) /\
+      forall c, (c < m)%nat ->
+        snd (nth c (f_meas f) (0%N, 0%N)) = N.of_nat c /\ nth (m - 1 - c) k false = nth c (rev k) false.
+Proof. exact fix_counts_of_run_little_endian. Qed.
+Print Assumptions C16_simulator_result_little_endian.
+
 (* Non-vacuity: a concrete table meets the hypotheses, and the model computes the expected completion. *)
 Example C16_example :
   let t := [([true; false], 7%N); ([false; false], 5%N)] in
@@ -44,4 +68,21 @@ Proof.
   - repeat constructor; simpl; intuition discriminate.
   - repeat constructor.
   - vm_compute. reflexivity.
+Qed.
+
+(* Non-vacuity of the third clause: x(0); cx(0,2); measure 2 -> c0, measure 0 -> c1 on labels {0,2} (C14's example) is
+   accepted, its classical bits are used in ascending order, and a shot average meeting the hypotheses exists. *)
+Example C16_simulator_example :
+  let data := [mkinstr OpX [0%N] []; mkinstr OpCx [0%N; 2%N] []; mkinstr OpMeasure [2%N] [0%N]; mkinstr OpMeasure [0%N] [1%N]] in
+  let a := mkargs (CData true data) true (PsiShape [4%Z]) (Some 3%Z) (Some (T1Len 3%Z)) (Some 2%Z) in
+  let f := mkfront [0%N; 2%N] [(2%N, 0%N); (0%N, 1%N)] 2 2%Z 3%Z in
+  front a = Ok f /\ data_wf a /\ NoDup (map fst (f_meas f)) /\
+  map snd (f_meas f) = map N.of_nat (seq 0 (length (f_meas f))) /\
+  (let probs := [1; 0; 2; 1]%R in length probs = Nat.pow 2 (f_n f) /\ Forall (Rle 0%R) probs /\ (0 < rsum probs)%R).
+Proof.
+  cbv zeta. split; [vm_compute; reflexivity|]. split.
+  { unfold data_wf. cbn [a_circ]. repeat (apply Forall_cons; [intros H; try discriminate H; cbn; eauto|]). apply Forall_nil. }
+  split. { cbn. repeat constructor; cbn; intuition discriminate. }
+  split; [vm_compute; reflexivity|].
+  split; [reflexivity|]. split. { repeat constructor; lra. } unfold rsum. cbn. lra.
 Qed.
